@@ -78,6 +78,7 @@ def run(ctx):
     years = list(G.all_strings(['1', '9', '-', ',', ' ', 'a', '(', '٢', '²'], ctx.n(4, 5)))
     ctx.exhaustive.append('all %d strings of length <= %d over 1 9 - , space a ( and two non-ASCII digits through is_year_range' % (len(years), ctx.n(4, 5)))
     years += ['1' * n for n in (8, 16, 31, 32, 33, 63, 64, 65, 127, 128, 129, 255, 256, 257, 1000)] + [','.join(str(y) for y in range(1900, 1900 + n)) for n in (5, 6, 7, 8, 13, 26, 52, 120)]
+    years += ['1999\u20132001', '\u00a92015', '\u00ab2007\u00bb', '2008\u2026', '2001\u2012', '1\u00a02', '\u2460', '2019\uff0c2020', '(\u0662\u0660\u0661\u0669)']
     years += ['1' * n + 'a' for n in (31, 32, 33, 64, 200)] + ['-' * n for n in (31, 32, 33, 64)]
     fails += ctx.prop('prop:year-range', years, p_year)
     texts = [t for _, t in docs]
